@@ -4,6 +4,8 @@
 //!   loader start  <dat> <uhash> => ok <dict entries> <dat after close> | err <dat after> | panic
 //!   loader cstart <dat> <uhash> => ok <dat after close> | null <dat after> | abort
 //!   loader learn  <dat> <entry> => <dat after close>
+//!   loader encbin  <lifetime bytes> G:<stored records> => <file bytes> valid|invalid <live records>
+//!   loader enctext <lifetime, signed decimal> G:<stored records> => <file bytes> valid|invalid <live records>
 //!
 //! Part A runs `UserDictionaryLoader::load` in-process (`catch_unwind`); part B runs
 //! `chewing_new2` scenarios in child processes (a panic inside an `extern "C"` fn aborts).
@@ -141,6 +143,53 @@ fn expected(s: &Store) -> Vec<E> {
         .collect();
     v.sort();
     v
+}
+
+/// `G:` token of the `loader encbin` / `loader enctext` records: `<syls>/<x-hex phrase>/<f>,<t>,<m>,<o> as u32/<deleted>`
+fn grecs_tok(s: &Store) -> String {
+    s.recs
+        .iter()
+        .map(|r| {
+            format!(
+                "{}/x{}/{}/{}",
+                syls_tok(&r.syls),
+                hex(r.phrase.as_bytes()),
+                r.fields.iter().map(|f| (*f as u32).to_string()).collect::<Vec<_>>().join(","),
+                r.deleted as u8
+            )
+        })
+        .collect::<Vec<_>>()
+        .join(";")
+}
+
+/// the live records in store order (what a complete reader yields)
+fn live_tok(s: &Store) -> String {
+    entries_tok(&s.recs.iter().filter(|r| r.live()).map(|r| (r.syls.clone(), r.phrase.as_bytes().to_vec(), r.fields[0] as u32, r.fields[1] as u64)).collect::<Vec<_>>())
+}
+
+/// what the TEXT format can express, computed here independently of the Lean predicate `GRec.TextValid`: 1..=11
+/// syllable codes, one character per syllable (the reader derives the number of syllable columns from the phrase),
+/// no ASCII white space in the phrase (the column separator); UTF-8 and the field widths hold by the Rust types
+fn text_valid(r: &GRec) -> bool {
+    (1..=11).contains(&r.syls.len())
+        && r.syls.iter().all(|s| is_syllable_code(*s))
+        && r.phrase.chars().count() == r.syls.len()
+        && !r.phrase.bytes().any(|b| matches!(b, 9 | 10 | 12 | 13 | 32))
+}
+
+/// the writer side of the Lean text round-trip theorem (`encodeText`, `GRec.TextValid`, `liveRecs`) against this
+/// generator's own encoder, its notion of a live record and of a record the text format can express
+fn enctext_record(out: &mut Out, st: &Store) -> bool {
+    let valid = st.recs.iter().all(text_valid);
+    out.rec(&format!(
+        "loader enctext {} G:{} => b{} {} {}",
+        st.lifetime,
+        grecs_tok(st),
+        hex(&enc_text(st)),
+        if valid { "valid" } else { "invalid" },
+        live_tok(st)
+    ));
+    valid
 }
 
 // ------------------------------------------------------------------ running the real loader
@@ -528,6 +577,7 @@ fn main() {
     // ---- A1: valid stores, full C19 scenario through the Rust API
     let n_valid = if thorough { 600 } else { 60 };
     let mut across = 0;
+    let (mut n_text, mut n_text_11) = (0u64, 0u64);
     for i in 0..n_valid {
         let st = gen_store(&mut rng, if i % 7 == 0 { 40 } else { 6 }, true);
         if st.lifetime > 65535 {
@@ -536,34 +586,65 @@ fn main() {
         if i % 2 == 0 {
             // the writer side of the Lean round-trip theorem (`encodeBin`, `GRec.Valid`, `liveRecs`)
             // against this generator's own encoder and its notion of a live record
-            let recs_tok = st
-                .recs
-                .iter()
-                .map(|r| {
-                    format!(
-                        "{}/x{}/{}/{}",
-                        syls_tok(&r.syls),
-                        hex(r.phrase.as_bytes()),
-                        r.fields.iter().map(|f| (*f as u32).to_string()).collect::<Vec<_>>().join(","),
-                        r.deleted as u8
-                    )
-                })
-                .collect::<Vec<_>>()
-                .join(";");
             cx.out.rec(&format!(
                 "loader encbin b{} G:{} => b{} valid {}",
                 hex(&(st.lifetime as i32).to_ne_bytes()),
-                recs_tok,
+                grecs_tok(&st),
                 hex(&enc_bin(&st)),
-                entries_tok(&st.recs.iter().filter(|r| r.live()).map(|r| (r.syls.clone(), r.phrase.as_bytes().to_vec(), r.fields[0] as u32, r.fields[1] as u64)).collect::<Vec<_>>())
+                live_tok(&st)
             ));
             migrate_scenario(&mut cx, &mut rng, &st, &enc_bin(&st), "bin");
         } else {
+            let mut st = st;
+            if i % 6 == 1 {
+                // the text header is an i64: negative and 64-bit lifetimes too (the binary one is a 4-byte int)
+                st.lifetime = *rng.pick(&[-1i64, i64::MIN, i64::MAX, -70000, 1 << 40, i32::MIN as i64]);
+            }
+            if !enctext_record(cx.out, &st) {
+                cx.out.oracle_fail("C19", "new", &format!("harness-generated-store-not-text-valid lifetime={}", st.lifetime));
+            }
+            n_text += 1;
+            n_text_11 += st.recs.iter().filter(|r| r.live() && r.syls.len() >= 10).count() as u64;
             migrate_scenario(&mut cx, &mut rng, &st, &enc_text(&st), "text");
         }
     }
     cx.out.stat("valid_stores", n_valid);
     cx.out.stat("valid_stores_lifetime_above_u16", across);
+    cx.out.stat("valid_text_stores", n_text);
+    cx.out.stat("valid_text_stores_live_records_with_10_or_11_syllables", n_text_11);
+
+    // ---- A1b: records the TEXT format cannot express (`GRec.TextValid` fails): a blank / tab in the phrase, a
+    // character count that differs from the syllable count, 0 / 12 syllables, a value that is not a syllable code —
+    // alone and next to expressible records.  `loader enctext` must say `invalid` on both sides; the reader's actual
+    // behaviour on these bytes is tied by the `loader start` record (no C19 oracle: these are not valid text stores)
+    let ok1 = GRec { syls: vec![10268, 8708], phrase: "策試".into(), fields: [9999, 6, 9999, 9231], deleted: false };
+    let ok2 = GRec { syls: vec![77], phrase: "新".into(), fields: [5, 6, 7, 8], deleted: false };
+    let twelve: Vec<u16> = (0..12).map(|k| if k % 2 == 0 { 10268 } else { 8708 }).collect();
+    let bad: Vec<GRec> = vec![
+        GRec { syls: vec![10268, 8708, 10268], phrase: "a b".into(), ..ok1.clone() },
+        GRec { syls: vec![10268, 8708, 77], phrase: "策\t試".into(), ..ok1.clone() },
+        GRec { syls: vec![10268, 8708, 77], phrase: "策試\r".into(), ..ok1.clone() },
+        GRec { syls: vec![10268, 8708], phrase: "\u{c}策".into(), ..ok1.clone() },
+        GRec { syls: vec![10268, 8708], phrase: "策".into(), ..ok1.clone() },
+        GRec { syls: vec![10268], phrase: "策試試".into(), ..ok1.clone() },
+        GRec { syls: vec![10268, 8708], phrase: "é".into(), ..ok1.clone() },
+        GRec { syls: vec![], phrase: "".into(), ..ok1.clone() },
+        GRec { syls: twelve, phrase: "策試策試策試策試策試策試".into(), ..ok1.clone() },
+        GRec { syls: vec![10268, 0x6a07], phrase: "策試".into(), ..ok1.clone() },
+        GRec { syls: vec![10268, 8708], phrase: "策\u{3000}".into(), ..ok1.clone() }, // U+3000 is not ASCII white space: expressible
+        GRec { syls: vec![10268, 8708], phrase: "策\u{b}".into(), ..ok1.clone() },    // nor is VT
+    ];
+    let mut n_text_invalid = 0;
+    for (k, b) in bad.iter().enumerate() {
+        for recs in [vec![b.clone()], vec![ok2.clone(), b.clone(), ok1.clone()]] {
+            let st = Store { lifetime: k as i64 - 3, recs };
+            if !enctext_record(cx.out, &st) {
+                n_text_invalid += 1;
+            }
+            start_record(&mut cx, &enc_text(&st), "text-store-with-inexpressible-record");
+        }
+    }
+    cx.out.stat("text_stores_not_text_valid", n_text_invalid);
 
     // ---- A2: text headers across the integer boundaries
     for lt in ["0", "65535", "65536", "70000", "2147483647", "2147483648", "9223372036854775807", "9223372036854775808",
